@@ -224,8 +224,9 @@ class RomFSReader(TypeReaderBase, FS):
                         logger.warning(f'Dirname collision: {current_path}{child_dir_name}')
                     out['contents'][child_dir_name_meta] = {'name': child_dir_name}
 
-                    iterate_dir(out['contents'][child_dir_name_meta], child_dir_meta,
-                                f'{current_path}{child_dir_name}/', dirmeta, filemeta)
+                    # handed to the loop below instead of a recursive call: images may nest deeper than the interpreter allows
+                    yield (out['contents'][child_dir_name_meta], child_dir_meta,
+                           f'{current_path}{child_dir_name}/', dirmeta, filemeta)
                     if next_sibling_dir == 0xFFFFFFFF:
                         break
                     dirmeta.seek(next_sibling_dir)
@@ -263,7 +264,16 @@ class RomFSReader(TypeReaderBase, FS):
         self._file.seek(self._start + lv3_offset + lv3.filemeta.offset)
         filemeta = BytesIO(self._file.read(lv3.filemeta.size))
 
-        iterate_dir(self._tree_root, dirmeta.read(0x18), '/', dirmeta, filemeta)
+        # iterate_dir is a generator that yields the arguments for each child directory when it reaches it; the
+        # directories being walked are kept on a list, which gives the order of the recursive walk without its depth limit
+        pending = [iterate_dir(self._tree_root, dirmeta.read(0x18), '/', dirmeta, filemeta)]
+        while pending:
+            try:
+                child = next(pending[-1])
+            except StopIteration:
+                pending.pop()
+            else:
+                pending.append(iterate_dir(*child))
 
     def _get_raw_info(self, path: str):
         curr = self._tree_root
